@@ -601,7 +601,7 @@ func c05AbandonTx(c *Conn, t *Tape, ref *Image) {
 		c.abortTx()
 		return
 	}
-	j := &jstate{nonce: 12345, origSize: ref.N()}
+	j := &jstate{nonce: c.newNonce(), origSize: ref.N()}
 	c.jwrite(0, c.journalHeader(j, false))
 	j.off = int64(c.SectorSize)
 	n := t.Range(1, int(min32(ref.N(), 4)))
@@ -624,7 +624,16 @@ func c05AbandonTx(c *Conn, t *Tape, ref *Image) {
 		c.abortTx()
 		return
 	}
-	c.syncJournal(j, false)
+	if _, e := c.syncJournal(j, false); e != 0 {
+		// the journal could not be synced: SQLite never writes a page in place
+		// after that; the process dies with what it has
+		c.jf.Close()
+		c.jf = nil
+		c.dbf.Close()
+		c.dbf = nil
+		c.lock = 0
+		return
+	}
 	hdr := DBHeader{ChangeCounter: 999, SizePages: ref.N()}
 	for _, pg := range pgs[:t.Range(1, len(pgs))] {
 		if pg == 1 {
